@@ -14,7 +14,7 @@ VARIABLE i
 TValueBound == 4          \* |entry| of every input array (Pythagorean columns go up to 4)
 
 CfgFields == {"op", "kind", "shape", "rank", "family", "how", "mode", "operand", "odim", "keep", "copy", "npad", "padb",
-              "lens", "maxrank", "thr", "listin", "fshapes", "coreshape", "pshapes", "rshapes"}
+              "lens", "maxrank", "thr", "listin", "fshapes", "coreshape", "pshapes", "rshapes", "mag"}
 OutFields == {"raised", "malformed", "exact", "dense", "cn", "cnfin", "wmin", "summ", "sfin", "parts", "perm",
               "orth", "orthfin", "nproj", "recon", "slices"}
 Ops == {"normalize", "cp_flip_sign", "cp_permute_factors", "pad_tt_rank", "cp_mode_dot", "tucker_mode_dot",
